@@ -111,3 +111,8 @@ Fixpoint exp_lines (t : ber_tree) (lv : nat) (off : Z) {struct t} : list line :=
 
 Definition exp_forest (ts : list ber_tree) (lv : nat) (off : Z) : list line :=
   exp_all (fun c o => exp_lines c lv o) ts off.
+
+(* X.690 8.1.3.5 long form with k subsequent length octets.  BER, unlike DER,
+   does not require the fewest octets: any 1 <= k <= 126 with n < 256^k is a
+   well-formed length. *)
+Definition long_len (k : nat) (n : Z) : list Z := (128 + Z.of_nat k) :: be_bytes k n.
